@@ -20,7 +20,10 @@ Editing ==
 Stop == phase = "edit" /\ phase' = "sync" /\ UNCHANGED vars
 SPush(r) == phase = "sync" /\ phase' = phase /\ Push(r)
 SFetch(r) == phase = "sync" /\ phase' = phase /\ Fetch(r)
-SMerge(r, b) == phase = "sync" /\ phase' = phase /\ Room(1) /\ Merge(r, b, a1, Rk)
+(* a merge writes a commit only when the two heads have diverged *)
+Diverged(r, b) == /\ trk[r][b] # 0 /\ ref[r][b] # 0
+                  /\ trk[r][b] \notin Anc(ref[r][b]) /\ ref[r][b] \notin Anc(trk[r][b])
+SMerge(r, b) == phase = "sync" /\ phase' = phase /\ (Room(1) \/ ~Diverged(r, b)) /\ Merge(r, b, a1, Rk)
 LNext == Editing \/ Stop \/ (\E r \in Replica : SPush(r) \/ SFetch(r)) \/ (\E r \in Replica, b \in Bugs : SMerge(r, b))
 Fair == /\ WF_lvars(Stop)
         /\ \A r \in Replica : WF_lvars(SPush(r)) /\ WF_lvars(SFetch(r))
@@ -34,5 +37,5 @@ Same == \A r1, r2 \in Replica, b \in Bugs :
           /\ ref[r1][b] # 0 => (OpsOf(ref[r1][b]) = OpsOf(ref[r2][b]) /\ Order(ref[r1][b]) = Order(ref[r2][b]))
 EventuallySame == <>[]Same
 (* the reserve suffices: the synchronisation never runs out of commits *)
-RoomForMerges == phase = "sync" => Room(1)
+RoomForMerges == (phase = "sync" /\ \E r \in Replica, b \in Bugs : Diverged(r, b)) => Room(1)
 =============================================================================
